@@ -2,7 +2,7 @@
    numeric correspondence of every run) and back; constructors that go through r2q (RPY in each order, Eul; OA and the
    UnitQuaternion(SO3) / UnitQuaternion(matrix) constructors are the same composition); UnitDualQuaternion(SE3).SE3(). *)
 From Coq Require Import Reals ZArith Lra Nsatz Psatz Bool.
-From SM Require Import Base.Ops Base.Lin Base.RInst Base.RLin Model.C04_R2q Model.C04_R2qProofs.
+From SM Require Import Base.Ops Base.Lin Base.RInst Base.RLin Model.C04_R2q Model.C04_R2qCore Model.C04_R2qProofs.
 From SMgen Require Import Traces_C04.
 Open Scope R_scope.
 
@@ -11,25 +11,20 @@ Ltac nopow := repeat match goal with |- context [?x ^ 2] => replace (x ^ 2) with
 Ltac clear_ineq := repeat match goal with H : _ < _ |- _ => clear H | H : _ <= _ |- _ => clear H | H : _ <> _ |- _ => clear H end.
 Ltac unit_eq := first [ solve [clear_ineq; nsatz] | field_simplify_eq; [ solve [clear_ineq; nopow; nsatz] | (repeat split; try lra; nra) .. ] ].
 
-(* Full statement (exact arithmetic):  forall R, SO3 R -> q2r (r2q R) = R.
-   It is false of the code as it is, but only inside the degenerate exit `abs(nm) < tol*_eps -> eye()`:
-   a genuine rotation by ~1.7e-18 rad is mapped to the identity quaternion.  This is not a defect at the 1e-6
-   agreement the property asks for (see C04_r2q_degenerate_is_near_identity); the pair below records it. *)
-Theorem C04_r2q_roundtrip_refuted : exists A : M33 R, SO3 A /\ q2r_ref Rops (r2q_100 Rops A) <> A.
-Proof. exact r2q_roundtrip_refuted. Qed.
-Print Assumptions C04_r2q_roundtrip_refuted.
-
-(* every branch (largest diagonal element R00 / R11 / R22) x both signs: outside the degenerate exit the round trip is exact,
-   the result is a unit quaternion and its scalar part is >= 0 (so q and -q both come back as the same representative) *)
-Theorem C04_r2q_roundtrip_partial : forall A : M33 R, SO3 A -> r2q_degenerate Rops (IZR 100) A = false ->
+(* FULL statement, for every rotation matrix (since /repo 1cdf860 r2q takes the vector part from the skew part when trace > 0 and has
+   no reachable degenerate exit; the former C04_r2q_roundtrip_refuted / _partial pair is gone): the round trip is exact, the result is
+   a unit quaternion and its scalar part is >= 0 (so q and -q both come back as the same representative).
+   trace > 0, and trace <= 0 with the three "largest diagonal" branches x both signs. *)
+Theorem C04_r2q_roundtrip : forall A : M33 R, SO3 A ->
   q2r_ref Rops (r2q_100 Rops A) = A /\ qnormsq Rops (r2q_100 Rops A) = 1 /\ 0 <= fst (fst (fst (r2q_100 Rops A))).
 Proof. exact r2q_roundtrip. Qed.
-Print Assumptions C04_r2q_roundtrip_partial.
+Print Assumptions C04_r2q_roundtrip.
 
-Theorem C04_r2q_degenerate_exit : forall A : M33 R, r2q_degenerate Rops (IZR 100) A = true ->
-  r2q_100 Rops A = qone Rops /\ q2r_ref Rops (r2q_100 Rops A) = I33 Rops.
-Proof. exact r2q_degenerate_eye. Qed.
-Print Assumptions C04_r2q_degenerate_exit.
+(* the `abs(nm) < tol*_eps -> eye()` exit, only reachable when trace <= 0, is never taken by a rotation matrix *)
+Theorem C04_r2q_degenerate_unreachable : forall A : M33 R, SO3 A -> r2q_trpos Rops A = false ->
+  r2q_degenerate Rops (IZR 100) A = false.
+Proof. exact r2q_degenerate_unreachable. Qed.
+Print Assumptions C04_r2q_degenerate_unreachable.
 
 (* the six branch lemmas cover a matrix of each kind: the branch selector is total *)
 Theorem C04_r2q_branch_total : forall A : M33 R, (r2q_branch Rops A <= 2)%nat.
@@ -52,23 +47,23 @@ Print Assumptions C04_RPY_Eul_in_SO3.
 (* UnitQuaternion.RPY(a, order) = r2q(rpy2r(a, order)), UnitQuaternion.Eul(a) = r2q(eul2r(a)) (this composition is checked
    against the implementation on every run, oracle keys struct:...): it is the same rotation as SO3.RPY / SO3.Eul *)
 Theorem C04_RPY_Eul_agree : forall a : V3 R,
-  (r2q_degenerate Rops (IZR 100) (tr_SO3_RPY_zyx Rops a) = false -> q2r_ref Rops (r2q_100 Rops (tr_SO3_RPY_zyx Rops a)) = tr_SO3_RPY_zyx Rops a) /\
-  (r2q_degenerate Rops (IZR 100) (tr_SO3_RPY_xyz Rops a) = false -> q2r_ref Rops (r2q_100 Rops (tr_SO3_RPY_xyz Rops a)) = tr_SO3_RPY_xyz Rops a) /\
-  (r2q_degenerate Rops (IZR 100) (tr_SO3_RPY_yxz Rops a) = false -> q2r_ref Rops (r2q_100 Rops (tr_SO3_RPY_yxz Rops a)) = tr_SO3_RPY_yxz Rops a) /\
-  (r2q_degenerate Rops (IZR 100) (tr_SO3_Eul Rops a) = false -> q2r_ref Rops (r2q_100 Rops (tr_SO3_Eul Rops a)) = tr_SO3_Eul Rops a).
+  q2r_ref Rops (r2q_100 Rops (tr_SO3_RPY_zyx Rops a)) = tr_SO3_RPY_zyx Rops a /\
+  q2r_ref Rops (r2q_100 Rops (tr_SO3_RPY_xyz Rops a)) = tr_SO3_RPY_xyz Rops a /\
+  q2r_ref Rops (r2q_100 Rops (tr_SO3_RPY_yxz Rops a)) = tr_SO3_RPY_yxz Rops a /\
+  q2r_ref Rops (r2q_100 Rops (tr_SO3_Eul Rops a)) = tr_SO3_Eul Rops a.
 Proof.
   intros a. destruct (C04_RPY_Eul_in_SO3 a) as (H1 & H2 & H3 & H4).
-  repeat split; intros Hd; apply r2q_roundtrip; assumption.
+  repeat split; apply r2q_roundtrip; assumption.
 Qed.
 Print Assumptions C04_RPY_Eul_agree.
 
 (* named constructors agree also through r2q: r2q(rotx t) is UnitQuaternion.Rx t up to sign -- stated on the matrix side *)
-Theorem C04_matrix_quaternion_matrix_Rx : forall t : R, r2q_degenerate Rops (IZR 100) (tr_SO3_Rx Rops t) = false ->
+Theorem C04_matrix_quaternion_matrix_Rx : forall t : R,
   q2r_ref Rops (r2q_100 Rops (tr_SO3_Rx Rops t)) = q2r_ref Rops (tr_UQ_Rx Rops t).
 Proof.
-  intros t Hd. assert (S : SO3 (tr_SO3_Rx Rops t)).
+  intros t. assert (S : SO3 (tr_SO3_Rx Rops t)).
   { autounfold with smgen smlin; sm_simpl. pose proof (cs_unit t). unfold SO3. repeat split; nsatz. }
-  destruct (r2q_roundtrip _ S Hd) as [E _]. rewrite E. clear E Hd S.
+  destruct (r2q_roundtrip _ S) as [E _]. rewrite E. clear E S.
   assert (Hh : cos t = cos (1/2*t) * cos (1/2*t) - sin (1/2*t) * sin (1/2*t) /\ sin t = 2 * sin (1/2*t) * cos (1/2*t)).
   { assert (E : t = 2 * (1/2*t)) by field. split; [rewrite E at 1; apply cos_2a | rewrite E at 1; apply sin_2a]. }
   destruct Hh as [Hc Hs]. pose proof (cs_unit (1/2*t)) as Hu.
@@ -80,13 +75,13 @@ Qed.
 Print Assumptions C04_matrix_quaternion_matrix_Rx.
 
 (* ---------------------------------------------------------------- SE3 -> UnitDualQuaternion -> SE3 *)
-Theorem C04_UDQ_roundtrip : forall X : M44 R, SE3 X -> r2q_degenerate Rops (IZR 100) (t2r3 X) = false ->
+Theorem C04_UDQ_roundtrip : forall X : M44 R, SE3 X ->
   tr_UDQ_SE3 Rops (udq_of_T Rops X) = X.
 Proof.
-  intros X HX Hd. destruct HX as [HR HL].
-  destruct (r2q_roundtrip _ HR Hd) as (E & U & _).
+  intros X HX. destruct HX as [HR HL].
+  destruct (r2q_roundtrip _ HR) as (E & U & _).
   rewrite (SE3_decompose X (conj HR HL)) at 2. rewrite <- E. clear E.
-  unfold udq_of_T. generalize dependent (r2q_100 Rops (t2r3 X)). intros r U. clear Hd HR.
+  unfold udq_of_T. generalize dependent (r2q_100 Rops (t2r3 X)). intros r U. clear HR.
   generalize (transl3 X). intros t. clear HL X.
   destruct_tuples. autounfold with smgen smlin in *. sm_simpl.
   repeat match goal with |- context [sqrt ?x] => replace x with 1 by (symmetry; unit_eq); rewrite sqrt_1 end.
@@ -94,19 +89,16 @@ Proof.
 Qed.
 Print Assumptions C04_UDQ_roundtrip.
 
-(* non-vacuity: a rotation by 2 atan(1/2) about x is in SO(3) and not in the degenerate exit *)
-Example C04_c_nonvacuous : SO3 (rotx_cs Rops (3/5) (4/5)) /\ r2q_degenerate Rops (IZR 100) (rotx_cs Rops (3/5) (4/5)) = false
-  /\ r2q_100 Rops (rotx_cs Rops (3/5) (4/5)) <> qone Rops.
+(* non-vacuity: rotations on both sides of trace = 0 are in SO(3), and r2q does not return the identity quaternion for them *)
+Example C04_c_nonvacuous : SO3 (rotx_cs Rops (3/5) (4/5)) /\ SO3 (rotx_cs Rops (-4/5) (3/5)) /\
+  r2q_trpos Rops (rotx_cs Rops (3/5) (4/5)) = true /\ r2q_trpos Rops (rotx_cs Rops (-4/5) (3/5)) = false /\
+  r2q_100 Rops (rotx_cs Rops (-4/5) (3/5)) <> qone Rops.
 Proof.
-  assert (S : SO3 (rotx_cs Rops (3/5) (4/5))) by (apply SO3_rotx; lra).
-  assert (D : r2q_degenerate Rops (IZR 100) (rotx_cs Rops (3/5) (4/5)) = false).
-  { unfold r2q_degenerate. cbn [ltb abs_ mul eps Rops]. apply Rltb_false.
-    unfold rotx_cs, norm3, normsq3, dot3, r2q_kv, r2q_add, r2q_branch. cbn [leb add sub mul one zero neg sqrt_ Rops].
-    replace (Rleb (3/5) 1 && Rleb (3/5) 1) with true by (symmetry; apply andb_true_iff; split; apply Rleb_true; lra).
-    replace (Rleb 0 (4/5 - - (4/5))) with true by (symmetry; apply Rleb_true; lra).
-    match goal with |- ~ Rabs (sqrt ?x) < _ => replace x with ((12/5)*(12/5)) by field end.
-    rewrite sqrt_square by lra. rewrite Rabs_right by lra. lra. }
-  split; [exact S|split; [exact D|]].
-  intros E. destruct (r2q_roundtrip _ S D) as [Q _]. rewrite E in Q.
-  unfold rotx_cs in Q. lin_simpl. injection Q; intros; lra.
+  assert (S1 : SO3 (rotx_cs Rops (3/5) (4/5))) by (apply SO3_rotx; lra).
+  assert (S2 : SO3 (rotx_cs Rops (-4/5) (3/5))) by (apply SO3_rotx; lra).
+  split; [exact S1|]. split; [exact S2|]. split; [|split].
+  - unfold r2q_trpos, rotx_cs. cbn [ltb add one zero Rops]. apply Rltb_true. lra.
+  - unfold r2q_trpos, rotx_cs. cbn [ltb add one zero Rops]. apply Rltb_false. lra.
+  - intros E. destruct (r2q_roundtrip _ S2) as [Q _]. rewrite E in Q.
+    unfold rotx_cs in Q. lin_simpl. injection Q; intros; lra.
 Qed.
